@@ -46,7 +46,9 @@ const specials = `"q\<&%`
 // form carries a quote, a backslash, '<', '&' and '%' in the middle, with a run
 // of at least 16 characters on either side.
 func canary(class, id string, special bool) string {
-	h := sha256.Sum256([]byte("c44|" + class + "|" + id))
+	// the two forms of the same (class, id) share no substring: a case and its
+	// shrunk variants must not be able to match each other's canaries
+	h := sha256.Sum256([]byte(fmt.Sprintf("c44|%s|%s|%v", class, id, special)))
 	x := hex.EncodeToString(h[:])
 	tag := map[string]string{"user-password": "upw", "dsn-password": "dpw", "setting": "set", "oauth-client-secret": "ocs"}[class]
 	if tag == "" {
